@@ -1317,6 +1317,30 @@ theorem msg_chain_rest (nx : Nat) (all : List Ev) (Ls : List Level) : ∀ (c : C
             · simp [x]
             · simp [x])) hf2 (hp2 ▸ hw.2.2.2)
 
+/-- **chain of forks with message slots, first level in any role** (bystander or committer), later levels as a bystander -/
+theorem msg_chain_run (nx : Nat) (all : List Ev) (c : Cl) (w : Ev) (T : List Ev) (rest : List Level) (Ms : List (List Ev))
+    (sched : List (List Ev × List Ev)) (hat : AtFork c T) (hbelow : Below c) (hu : Uniq c.msgs) (hmin : IsMin w T)
+    (hcross : ∀ e1 ∈ T, ∀ e2 ∈ evs rest, e1.n ≠ e2.n ∧ e1.cipher ≠ e2.cipher)
+    (hch : ChainEv c.id (coreStep (core c.g) w) rest)
+    (hms : SlotsEv c.id (core c.g) ((w, T) :: rest) Ms)
+    (hall : ∀ e ∈ T ++ evs rest ++ Ms.flatten, e ∈ all)
+    (hfresh : Fresh c (evs rest ++ Ms.flatten))
+    (hw : MLevelWise all c.g.path ((w, T) :: rest) Ms sched) :
+    MsgDone c ((w, T) :: rest) Ms sched (run nx c (flat sched)) := by
+  cases Ms with
+  | nil => cases hms
+  | cons M Ms =>
+    cases sched with
+    | nil => cases hw
+    | cons lm rest' =>
+      refine msg_chain_step nx all c w T M rest Ms lm rest' hat hbelow hu hmin hcross hch hms hall hfresh hw ?_
+      intro c2 hr2 hu2 hp2 hch2 hms2 hf2
+      exact msg_chain_rest nx all rest c2 Ms rest' hr2 hu2 hch2 hms2
+        (fun e he => hall e (by
+          rcases List.mem_append.mp he with x | x
+          · simp [x]
+          · simp [x])) hf2 (hp2 ▸ hw.2.2.2)
+
 /-! ## §F  messages of a losing branch: an invariant of every schedule of foreign events
 
   `P` is the MLS path of a fork's parent state, `w` the ciphertext of the commit the client ends on, `LM` the message
@@ -1588,5 +1612,37 @@ theorem li_run {P : Path} {w : Nat} {LM : Nat → Prop} (nx : Nat) (l : List Ev)
     intro x hx
     rw [(deliver_config nx c e).1]
     exact hl x (List.mem_cons_of_mem _ hx)
+
+/-! ## decidable forms of the event conditions (for closed examples) -/
+
+instance (id : Nat) (k : Core) (M : List Ev) : Decidable (SlotEv id k M) :=
+  decidable_of_iff
+    ((∀ e ∈ M, (appMid e).isSome = true) ∧ (∀ e ∈ M, e.path = k.1) ∧ (∀ e ∈ M, e.sender ≠ id) ∧ (∀ e ∈ M, e.tag = k.2.2.nid) ∧
+      (∀ e1 ∈ M, ∀ e2 ∈ M, e1 ≠ e2 → e1.n ≠ e2.n ∧ e1.cipher ≠ e2.cipher ∧ appMid e1 ≠ appMid e2))
+    ⟨fun ⟨a, b, c, d, e⟩ => ⟨a, b, c, d, e⟩, fun h => ⟨h.kind, h.path, h.foreign, h.tag, h.distinct⟩⟩
+
+instance decSlotsEv (id : Nat) : ∀ (k : Core) (Ls : List Level) (Ms : List (List Ev)), Decidable (SlotsEv id k Ls Ms)
+  | _, [], [] => isTrue trivial
+  | _, [], _ :: _ => isFalse (fun h => h)
+  | _, _ :: _, [] => isFalse (fun h => h)
+  | k, L :: Ls, M :: Ms => by
+    unfold SlotsEv
+    have := decSlotsEv id (coreStep k L.1) Ls Ms
+    infer_instance
+
+instance decMLevelWise (all : List Ev) : ∀ (p : Path) (Ls : List Level) (Ms : List (List Ev)) (sched : List (List Ev × List Ev)),
+    Decidable (MLevelWise all p Ls Ms sched)
+  | _, [], [], [] => isTrue trivial
+  | _, [], [], _ :: _ => isFalse (fun h => h)
+  | _, [], _ :: _, _ => isFalse (fun h => h)
+  | _, _ :: _, [], _ => isFalse (fun h => h)
+  | _, _ :: _, _ :: _, [] => isFalse (fun h => h)
+  | p, L :: Ls, M :: Ms, lm :: rest => by
+    unfold MLevelWise
+    have := decMLevelWise all (p ++ [L.1.cipher]) Ls Ms rest
+    infer_instance
+
+instance (c : Cl) (E : List Ev) : Decidable (Fresh c E) := by unfold Fresh; infer_instance
+instance (l : List MsgRow) : Decidable (Uniq l) := by unfold Uniq; infer_instance
 
 end MdkVerif.ChainMsg
